@@ -330,7 +330,7 @@ func (fr *frame) visit(instr ssa.Instruction) bool {
 		if ptr == nil {
 			panic(goPanic{p.mkRuntimeError("nil pointer dereference (store) in " + fr.fn.String())})
 		}
-		*ptr = copyVal(fr.get(in.Val))
+		storeInto(ptr, copyVal(fr.get(in.Val)))
 	case *ssa.If:
 		c := fr.get(in.Cond).(*Term)
 		var taken bool
@@ -451,6 +451,28 @@ func (fr *frame) visit(instr ssa.Instruction) bool {
 		p.unsupported("instruction %T", instr)
 	}
 	return false
+}
+
+// storeInto writes v into the slot, element-wise for aggregates so that
+// pointers to fields/elements taken earlier stay valid (Go semantics).
+func storeInto(ptr *Value, v Value) {
+	switch nv := v.(type) {
+	case Struct:
+		if old, ok := (*ptr).(Struct); ok && len(old) == len(nv) {
+			for i := range nv {
+				storeInto(&old[i], nv[i])
+			}
+			return
+		}
+	case Array:
+		if old, ok := (*ptr).(Array); ok && len(old) == len(nv) {
+			for i := range nv {
+				storeInto(&old[i], nv[i])
+			}
+			return
+		}
+	}
+	*ptr = v
 }
 
 func (fr *frame) doSelect(in *ssa.Select) Value {
